@@ -864,6 +864,8 @@ pub struct Focus {
     /// C06: do not quiesce the consumer before a put; estimates used by the decision are judged
     /// against the interval [estimate before, estimate after] (when no ageing happened in between)
     pub admission_race: bool,
+    /// C14: quiesce the consumer and compare the mirror every n-th step only (1 = every step)
+    pub mirror_every: usize,
 }
 
 impl Focus {
@@ -887,6 +889,7 @@ impl Focus {
             consumer_idle_pct: 0,
             rewind_pct: 0,
             admission_race: false,
+            mirror_every: 1,
         }
     }
 }
@@ -1254,7 +1257,7 @@ impl Online for SeqDriver {
                 check_admission(w, &events, &pre, &self.pre_est, st, &mut mis);
             }
         }
-        if self.mirror.is_some() {
+        if self.mirror.is_some() && (_step + 1) % self.focus.mirror_every.max(1) == 0 {
             simsync::sim::await_idle(simsync::sim::Role::Consumer);
             let fresh = exec::items_since(self.mirror_seq);
             self.mirror_seq = exec::seq();
